@@ -14,6 +14,7 @@ import (
 	"github.com/sassoftware/relic/v8/server"
 	"github.com/sassoftware/relic/v8/signers"
 	"github.com/sassoftware/relic/v8/zz_verif/core"
+	"github.com/sassoftware/relic/v8/zz_verif/simhook"
 	simos "github.com/sassoftware/relic/v8/zz_verif/simos"
 	"github.com/sassoftware/relic/v8/zz_verif/world"
 )
@@ -97,6 +98,7 @@ func c10VerifyTime(r *core.Run) {
 			return
 		}
 		defer signinit.ZZResetTimestamper()
+		defer simhook.SetHTTPRoundTrip(nil)
 		srv, err := server.New(cfg)
 		if err != nil {
 			r.Notes["internal_error"] = "server.New: " + err.Error()
